@@ -177,6 +177,55 @@ func c10Run(c *core.Ctx) *core.Result {
 	r.Nontrivial = nsel > 0 && nsel < len(items)
 	r.Count("entries", int64(len(items)))
 
+	// a filtered walk of a sub-target: the restriction of the reference to the
+	// target and what lies below it (ancestors above the target are not part
+	// of such a walk)
+	if mode == 0 && c.R.P(1, 4) {
+		var dirs []string
+		for _, it := range items {
+			if it.IsDir {
+				dirs = append(dirs, it.Path)
+			}
+		}
+		if len(dirs) > 0 {
+			target := core.Pick(c.R, dirs)
+			var sub []refs.Item
+			for _, it := range items {
+				if it.Path == target || strings.HasPrefix(it.Path, target+"/") {
+					sub = append(sub, it)
+				}
+			}
+			subIncr, err := refs.SelectIncremental(sub, inc, exc)
+			if err != nil {
+				r.Inconclusive = "incremental reference: " + err.Error()
+				return r
+			}
+			base, err := fsutil.NewFS(src)
+			if err != nil {
+				r.Inconclusive = err.Error()
+				return r
+			}
+			ffs, err := fsutil.NewFilterFS(base, opt)
+			if err != nil {
+				r.Violate("filter-error", "NewFilterFS failed: %v", err)
+				return r
+			}
+			sts, err := walkStats(ffs, target)
+			if err != nil {
+				r.Violate("filter-error", "filtered walk of sub-target %q failed: %v (inc=%q exc=%q)", target, err, inc, exc)
+				return r
+			}
+			var got []string
+			for _, st := range sts {
+				got = append(got, st.Path)
+			}
+			sample["target"] = target
+			r.FP += "|target=" + target
+			r.Count("subtarget_walks", 1)
+			k1Triage(r, fmt.Sprintf("filtered walk of sub-target %q", target), got, func(sel map[string]bool) []string { return refs.WithAncestors(sub, sel) }, naive, subIncr, sample)
+			return r
+		}
+	}
 	switch mode {
 	case 0, 1, 2:
 		if mode != 0 {
